@@ -8,6 +8,7 @@ Self-contained: imports nothing from props.py.
 The C19 monitor does NOT use the Lean model: it carries its own small reading of the pluginsdk schema rules
 (`py_normalise`) and checks the observations of the real run against it and against each other.
 """
+import json
 import os
 import struct
 import subprocess
@@ -217,7 +218,7 @@ def _slim_input(case):
     return c
 
 
-def mon_c19_input(case, verdict, chk):
+def _mon_c19_input_main(case, verdict, chk):
     """C19 on one real run: an invalid document is refused with error class invalidInput and NOTHING was deployed, at
     the time Execute returned and afterwards; a valid document is accepted, the returned `$.input` is the normalised
     document, every plugin received the normalised values, steps referring to the same field received the same value."""
@@ -331,6 +332,52 @@ def mon_c19_input(case, verdict, chk):
                 chk.violation("C19:steps-disagree", "steps %s and %s refer to $.input.%s and received different values"
                               % (by_ref[k][1], st.get("id"), ".".join(path)), replay)
             by_ref.setdefault(k, (v, st.get("id")))
+
+
+def mon_c19_input(case, verdict, chk):
+    _mon_c19_input_main(case, verdict, chk)
+    mon_c19_run_leg(case, chk)
+
+
+def _leg_view(o):
+    r = o.get("result") or {}
+    return {"stage": o.get("stage"), "returned": bool(r.get("returned")), "output_id": r.get("output_id") or "",
+            "error": bool(r.get("err")), "err_class": r.get("err_class") or "", "data": canon(r.get("data")),
+            "deploys": o.get("deploys"), "seen": canon(o.get("seen"))}
+
+
+def mon_c19_run_leg(case, chk):
+    """The same document as an input FILE: `Workflow.Run` with the document written as YAML with plain scalars against
+    `Execute` with the document's scalars as their text (the reading of the engine's input decoder).  Outcome, number of
+    deployments and the values every plugin received must agree: a document is not refused / accepted / altered
+    depending on how the engine's front end spells it."""
+    leg = case.get("run_leg")
+    if case.get("kind") != "input" or not leg:
+        return
+    ex, run = leg.get("exec") or {}, leg.get("run") or {}
+    chk.hist["run-leg:" + ("lookalike" if leg.get("lookalike") else "as-generated")] = chk.hist.get("run-leg:" + ("lookalike" if leg.get("lookalike") else "as-generated"), 0) + 1
+    idx = case.get("id", "x-0-0").split("-")[-1]
+    replay = {"kind": "impl-counterexample", "case": {"id": case.get("id"), "yaml": case.get("yaml"), "run_leg": leg},
+              "replay_harness": list(case.get("replay_harness") or ["input", "-n", str(int(idx) + 1), "-skip", idx, "-seed", str(chk.seed)])}
+    for name, o in (("Prepare+Execute", ex), ("Parse+Run", run)):
+        if o.get("panic") or o.get("timeout"):
+            chk.violation("C19:panic-or-hang", "%s panicked or did not return for the input file %r: %s" % (name, leg.get("input_yaml", "")[:200], str(o.get("panic"))[:200]), replay)
+            return
+    if ex.get("stage") != "run" or run.get("stage") != "run":
+        if ex.get("stage") != run.get("stage"):
+            chk.notes.append("C19 run leg: stages differ (%s / %s) for %s" % (ex.get("stage"), run.get("stage"), case.get("id")))
+        return
+    a, b = _leg_view(ex), _leg_view(run)
+    chk.hist["run-leg:" + ("accepted" if not a["error"] else "refused")] = chk.hist.get("run-leg:" + ("accepted" if not a["error"] else "refused"), 0) + 1
+    diff = [k for k in a if a[k] != b[k]]
+    if diff:
+        la = leg.get("lookalike")
+        chk.violation("C19:input-file-read-differently",
+                      "the input file %r%s: Workflow.Run and Execute on the same document (scalars as their text) differ in %s: "
+                      "Run gives %s, Execute gives %s" % (
+                          leg.get("input_yaml", "")[:300], (" (value %r at %s)" % (la.get("value"), la.get("path"))) if la else "",
+                          ", ".join(diff), json.dumps({k: b[k] for k in diff}, sort_keys=True)[:400], json.dumps({k: a[k] for k in diff}, sort_keys=True)[:400]),
+                      replay)
 
 
 # ---- sequences on one prepared workflow (stream `inputseq`) ---------------------------------------------------------------------
